@@ -8,11 +8,14 @@
 #include "lz4.c"
 #include "lz4hc.c"
 #include "xxhash.c"
+#include "life.h"
 #include "lz4frame.c"
+#define LIFE_PART2
+#include "life.h"
 #include "lz4file.c"
 #include "gen.h"
 
-static u64 n_calls, n_files, n_reads, n_short;
+static u64 n_calls, n_files, n_reads, n_short, n_linked_files;
 
 /* one reading session on a file holding `fbytes`, recorded whole (op 14) for the Lean model of LZ4F_readOpen / LZ4F_read (Model/FileR.lean):
  * result of readOpen, then for every LZ4F_read the size asked and the value returned, and all bytes returned */
@@ -59,6 +62,7 @@ static void one_case(const u8* content, size_t n, int thorough)
     rec_int(&r, 0); rec_int(&r, 0); rec_bytes(&r, content, n); rec_bytes(&r, NULL, 0);
     cur_set(&r);
     if (!fp) { perror("tmpfile"); exit(3); }
+    g_life_n = 0; g_life_init_n = 0; g_life_on = 1;
     res = LZ4F_writeOpen(&w, fp, useNull ? NULL : &prefs); n_calls++;
     if (LZ4F_isError(res)) { c_fail(&r, "writeOpen_failed"); fclose(fp); free(ops); return; }
     while (pos < n) {   /* any sequence of write sizes */
@@ -71,11 +75,16 @@ static void one_case(const u8* content, size_t n, int thorough)
         ops[nops] = 119; ops[nops+1] = (u8)chunk; ops[nops+2] = (u8)(chunk >> 8); ops[nops+3] = (u8)(chunk >> 16); ops[nops+4] = (u8)(chunk >> 24); nops += 5;
         pos += chunk;
     }
-    res = LZ4F_writeClose(w); n_calls++;
+    res = LZ4F_writeClose(w); n_calls++; g_life_on = 0;
     if (LZ4F_isError(res)) c_fail(&r, "writeClose_failed");
     fflush(fp); fsz = ftell(fp); rewind(fp);
     filebytes = xalloc((size_t)fsz); if (fread(filebytes, 1, (size_t)fsz, fp) != (size_t)fsz) { perror("fread"); exit(3); }
     r.n -= 1; rec_bytes(&r, filebytes, (size_t)fsz); rec_bytes(&r, ops, nops);
+    /* a linked-blocks file at a fast level: ALSO a record of kind 6 for the end-to-end model of linked-blocks frames (Model/FrameLinked.lean), with the
+     * schedule logged by the interposed LZ4 calls */
+    if (pos == n && !LZ4F_isError(res) && prefs.frameInfo.blockMode == LZ4F_blockLinked && prefs.compressionLevel < LZ4HC_CLEVEL_MIN && n <= 300000) {
+        rec_t k6 = r; u32 qi; for (qi = 0; qi < r.n; qi++) if (r.p[qi] == &r.ints[qi]) k6.p[qi] = &k6.ints[qi];
+        k6.ints[0] = 6; k6.n -= 1; rec_bytes(&k6, g_life, g_life_n); rec_bytes(&k6, g_life_init, g_life_init_n); rec_write(&k6); n_linked_files++; }
     n_files++; if (fsz < 19) n_short++;
     /* read back with any sequence of read sizes */
     {   int rep, nrep = thorough ? 3 : 2;
@@ -121,7 +130,7 @@ int main(int argc, char** argv)
         for (i = 0; i < 8; i++) { gen_data(data, around[i], (int)rndn(D_KINDS)); one_case(data, around[i], thorough); } }
     for (i = 0; i < (thorough ? SH(1500) : 60); i++) { n = rndp(50) ? rndn(3000) : rndn((u32)maxn); gen_data(data, n, (int)rndn(D_KINDS)); one_case(data, n, thorough); }
     harness_done();
-    stat_u("calls", n_calls); stat_u("files", n_files); stat_u("reads", n_reads); stat_u("files_shorter_than_max_header", n_short); stat_u("read_sessions_for_the_model", n_sessions); stat_u("read_session_calls", n_session_reads); stat_u("read_sessions_ending_in_error", n_session_errors); stat_u("records", g_nrecords); stat_u("cfails", (u64)g_cfails);
+    stat_u("calls", n_calls); stat_u("files", n_files); stat_u("linked_files_for_end_to_end_model", n_linked_files); stat_u("reads", n_reads); stat_u("files_shorter_than_max_header", n_short); stat_u("read_sessions_for_the_model", n_sessions); stat_u("read_session_calls", n_session_reads); stat_u("read_sessions_ending_in_error", n_session_errors); stat_u("records", g_nrecords); stat_u("cfails", (u64)g_cfails);
     free(data);
     return g_cfails ? 1 : 0;
 }
